@@ -301,7 +301,9 @@ def run(ctx):
         dominated_by(ctx, 'C02.W1', rc, e, lambda x: x['k'] == 'call' and x.get('name') == 'BuildLog::OpenForWriteIfNeeded',
                      'the log is (re)opened before an entry is written', 'RecordCommand:write-without-open')
     ow = prog.fn('BuildLog::OpenForWriteIfNeeded')
-    for e in ow.calls('fopen'):
+    log_opens = [st for st in ow.stores() if mentions_field(st['l'], 'BuildLog::log_file_') and mentions_call(st.get('r'), 'fopen')]
+    ctx.check('C02.W1', len(log_opens) >= 1, ow.name, 'log-open:absent', ow.loc, 'OpenForWriteIfNeeded opens the log stream')
+    for e in [x for st in log_opens for x in ow.calls('fopen') if x['_b'] == st['_b'] and x['_i'] <= st['_i'] and dstr(x.get('args')) in dstr(st.get('r'))]:
         mode = dstr(e['args'][1]) if len(e.get('args', [])) > 1 else ''
         ctx.check('C02.W1', 'a' in mode and 'w' not in mode, ow.name, 'log-open-mode', ow.where(e),
                   'the log is opened in append mode (%s): earlier entries survive a reopen' % mode)
